@@ -171,6 +171,15 @@ class ResendRule(BaseRule):
             s.ts["strip"] = s.ts.get("strip", ()) + ((recv.sym, tuple(sorted(key.tags)), tuple(g for g in s.ts.get("guards", ()))),)
             s.log(node, f"STRIP {ast.unparse(node)}")
             return [Out("normal", s, UNK)]
+        if isinstance(f, ast.Attribute) and f.attr in ("update", "pop", "setdefault", "clear", "add", "discard", "extend", "popitem", "__setitem__", "__delitem__") \
+                and recv is not None and recv.kind == "unk" and not ({"copy", "hd-copy", "method-change"} & set(recv.tags)) \
+                and any(t in ("entry:headers", "entry:kw.headers", "self.headers") for t in recv.tags):
+            s = st.copy()
+            s.log(node, f"MUTATE caller mapping: {ast.unparse(node)[:50]}")
+            self.sites.append(Site("mutate-uncopied", node, s, {"recv": recv, "args": pos}))
+            if f.attr == "update":
+                self.sites.append(Site("merge", node, s, {"into": recv, "what": pos[0] if pos else UNK}))
+            return [Out("normal", s, UNK)]
         if isinstance(f, ast.Attribute) and f.attr == "update" and recv is not None and "copy" in recv.tags:
             a = pos[0] if pos else UNK
             s = st.copy()
